@@ -16,6 +16,7 @@ import (
 	"encoding/json"
 	"flag"
 	"fmt"
+	"hash/fnv"
 	"os"
 	"os/exec"
 	"sort"
@@ -333,6 +334,58 @@ func exhaustivePlans(root *core.Rand, k int, both bool) []*PlanSpec {
 	return plans
 }
 
+// longPlans: the "long budget" family. Retries around and above 32 and 64, scripts that keep failing transiently for
+// the whole budget, and variants that succeed / fail permanently / answer with a wrong type at attempt 30-45.
+// No overruns here (the fast retry policy - 100 us, factor 1.1, at most 1 ms - keeps 65 attempts under 0.1 s).
+func longPlans(root *core.Rand) []*PlanSpec {
+	r := root.Fork(0x10c6)
+	var acts []*ActSpec
+	trans := func(i int) Outcome { return []Outcome{OErr, OGoodTrans}[i%2] }
+	for _, rt := range []int{31, 32, 33, 40, 64} {
+		acts = append(acts, &ActSpec{Retries: rt, Dflt: OErr, Combo: -1}, &ActSpec{Retries: rt, Dflt: OGoodTrans, Script: []Outcome{OErr}, Combo: -1})
+		for _, j := range []int{30, 31, 32, 33, 34, 40, 45} {
+			for _, fin := range []Outcome{OOk, OPerm, OWrongType, OBadTrans} {
+				if (fin == OWrongType || fin == OBadTrans) && j%2 == 1 {
+					continue
+				}
+				a := &ActSpec{Retries: rt, Dflt: OErr, Combo: -1}
+				for i := 0; i < j; i++ {
+					a.Script = append(a.Script, trans(i+j))
+				}
+				a.Script = append(a.Script, fin)
+				acts = append(acts, a)
+			}
+		}
+	}
+	shuffle(r, acts)
+	var plans []*PlanSpec
+	for len(acts) > 0 {
+		p := &PlanSpec{Index: len(plans), Kind: "long", Tol: -1}
+		take := func() *ActSpec {
+			if len(acts) == 0 {
+				return nil
+			}
+			a := acts[len(acts)-1]
+			acts = acts[:len(acts)-1]
+			return a
+		}
+		for s := 0; s < 8; s++ {
+			if a := take(); a != nil {
+				p.Seqs = append(p.Seqs, []*ActSpec{a})
+			}
+		}
+		p.Conc = len(p.Seqs)
+		for i := 0; i < 3; i++ {
+			if a := take(); a != nil {
+				p.PG[GDeferred] = append(p.PG[GDeferred], a)
+			}
+		}
+		p.setPaths(r)
+		plans = append(plans, p)
+	}
+	return plans
+}
+
 var randWeights = []int{25, 15, 7, 6, 7, 6, 10, 5, 6, 5, 4, 4}
 
 func randomAct(r *core.Rand) *ActSpec {
@@ -611,6 +664,12 @@ func behave(ctx context.Context, p *hplug.Plugin, req any) (any, *plugins.Error)
 	run.Ctx = append(run.Ctx, false)
 	flavour := rec.spec.planned(k)
 	planned := flavour.coq()
+	// safety net: an engine that keeps invoking beyond the budget is stopped by a permanent error (the run is then
+	// an observation with more than Retries+1 calls, not a disturbance)
+	safety := k >= rec.spec.Retries+10
+	if safety {
+		flavour, planned = OPerm, OPerm
+	}
 	run.Eff = append(run.Eff, planned)
 	dl, _ := ctx.Deadline()
 	run.deadline = append(run.deadline, dl)
@@ -691,12 +750,19 @@ func behave(ctx context.Context, p *hplug.Plugin, req any) (any, *plugins.Error)
 	case 2:
 		resp = hplug.AltResp{Echo: "a response of another type"}
 	}
+	// an error value whose Message is empty is still an error: nothing may look at the text
+	h := fnv.New32a()
+	fmt.Fprintf(h, "%s|%s|%d", rq.Nonce, rq.Path, k)
+	msgT, msgP := "scripted transient error", "scripted permanent error"
+	if h.Sum32()%10 < 3 {
+		msgT, msgP = "", ""
+	}
 	var perr *plugins.Error
 	switch outcomeErr[eff] {
 	case 1:
-		perr = &plugins.Error{Code: code, Message: "scripted transient error"}
+		perr = &plugins.Error{Code: code, Message: msgT}
 	case 2:
-		perr = &plugins.Error{Code: code, Message: "scripted permanent error", Permanent: true}
+		perr = &plugins.Error{Code: code, Message: msgP, Permanent: true}
 	}
 	return resp, perr
 }
@@ -1045,6 +1111,7 @@ func main() {
 	n := flag.Int("n", 60, "number of random plans")
 	exh := flag.Int("exh", 3, "bounded-exhaustive family: script length k (all 10^k scripts x retries 0-4); 0 = off")
 	both := flag.Bool("both", false, "every combination as a sequence action AND as a check action (default: one of the two, by the seed)")
+	long := flag.Bool("long", true, "long-budget family: retries 31, 32, 33, 40, 64")
 	par := flag.Int("par", 6, "child processes in parallel")
 	batch := flag.Int("batch", 6, "plans per child (run concurrently on one Workstream)")
 	only := flag.String("only", "", "run only the plan with this id (replay)")
@@ -1065,6 +1132,9 @@ func main() {
 	var specs []*PlanSpec
 	if *exh > 0 {
 		specs = append(specs, exhaustivePlans(root, *exh, *both)...)
+	}
+	if *long {
+		specs = append(specs, longPlans(root)...)
 	}
 	specs = append(specs, randomPlans(root, *n)...)
 	if *only != "" {
